@@ -6,7 +6,7 @@ import Compute.Model.BinomAlt
 /-
 Driver for C17.  Requests
   logisticv <vec> | logit p | rt1 x (logistic then logit) | rt2 p (logit then logistic)
-  boxcox x lambda | boxcoxs x lambda alpha | softmax2 c <vec> (softmax x, softmax (x .+ c)) | binom n k | binomalt n k
+  boxcox x lambda | boxcoxs x lambda alpha | softmax2 c <vec> (softmax x, softmax (x .+ c)) | binom n k | binomalt n k | logsweep a b (all f32 bit patterns a..b and their negations)
 Replies: `= h`, `= p r`, `= <vec>`, `= c`, `! panic`.
 `binom`: the guard replies `= 0` (the source returns 0); overflow/underflow of a 64-bit operation
 replies `! panic` (the executor is built with overflow checks).
@@ -17,6 +17,36 @@ def c17Opt (r : Option Float) : String :=
   match r with
   | some v => ok (showFloat v)
   | none => panicked
+
+/-- `logsweep a b`: every non-negative f32 bit pattern in `[a, b]` with its negation through the model's `logistic`:
+counts of range / monotonicity / reflection violations, of exact zeros and ones, and an FNV-style hash of all results. -/
+structure SweepAcc where
+  badRange : UInt64 := 0
+  badMono : UInt64 := 0
+  badSymm : UInt64 := 0
+  firstBad : UInt64 := 0xFFFFFFFFFFFFFFFF
+  zeros : UInt64 := 0
+  ones : UInt64 := 0
+
+/-- `logistic` at `Float`, unfolded (so that the compiled sweep works on unboxed doubles); definitionally the model: -/
+@[inline] def c17LogisticF (x : Float) : Float := 1.0 / (1.0 + Float.exp (-x))
+example (x : Float) : logistic x = c17LogisticF x := rfl
+
+def c17Sweep : Nat → UInt32 → Float → Float → UInt64 → UInt64 → UInt64 → UInt64 → UInt64 → UInt64 → UInt64 →
+    (Float × Float × UInt64 × SweepAcc)
+  | 0, _, pp, pq, h, br, bm, bs, fb, zs, os => (pp, pq, h, ⟨br, bm, bs, fb, zs, os⟩)
+  | fuel + 1, bits, pp, pq, h, br, bm, bs, fb, zs, os =>
+    let x : Float := (Float32.ofBits bits).toFloat
+    let p := c17LogisticF x
+    let q := c17LogisticF (-x)
+    let r := !(p >= 0.0 && p <= 1.0 && q >= 0.0 && q <= 1.0)
+    let mo := !(p >= pp && q <= pq)
+    let sy := !(((p + q) - 1.0).abs <= 200.0 * Float.ofBits 0x3CB0000000000000)
+    let fb := if (r || mo || sy) && fb == 0xFFFFFFFFFFFFFFFF then bits.toUInt64 else fb
+    let h := (h ^^^ p.toBits) * 0x00000100000001b3
+    let h := (h ^^^ q.toBits) * 0x00000100000001b3
+    c17Sweep fuel (bits + 1) p q h (if r then br + 1 else br) (if mo then bm + 1 else bm) (if sy then bs + 1 else bs) fb
+      (if q == 0.0 then zs + 1 else zs) (if p == 1.0 then os + 1 else os)
 
 def c17Step (args : List String) : String :=
   match args with
@@ -45,6 +75,15 @@ def c17Step (args : List String) : String :=
         | .guard => ok "0"
         | .overflow => panicked
         | .underflow => panicked
+  | "logsweep" :: rest => withArgs (do let a ← pNat; let b ← pNat; pure (a, b)) rest fun (a, b) =>
+      if a > b ∨ b > 0x7f7fffff then badOp
+      else
+        let a32 : UInt32 := UInt32.ofNat a
+        let x0 : Float := (Float32.ofBits a32).toFloat
+        let negInf := Float.ofBits 0xFFF0000000000000
+        let posInf := Float.ofBits 0x7FF0000000000000
+        let (pp, pq, h, acc) := c17Sweep (b - a + 1) a32 negInf posInf 0xcbf29ce484222325 0 0 0 0xFFFFFFFFFFFFFFFF 0 0
+        ok s!"{b - a + 1} {acc.badRange} {acc.badMono} {acc.badSymm} {acc.firstBad} {acc.zeros} {acc.ones} {h} {showFloat (logistic x0)} {showFloat (logistic (-x0))} {showFloat pp} {showFloat pq}"
   | "binomalt" :: rest => withArgs (do let n ← pNat; let k ← pNat; pure (n, k)) rest fun (n, k) =>
       if n ≥ 2 ^ 64 ∨ k ≥ 2 ^ 64 then badOp
       else match binomCoeffAlt Float n k with
